@@ -75,23 +75,24 @@ pub fn visit_cookies(m: &mut Message, f: &mut dyn FnMut(CookieKind, &mut Uuid)) 
     }
 }
 
-/// The serial field of messages whose serial lives in the broker-chosen space, for messages
-/// travelling broker -> client.
-pub fn broker_serial_out(m: &mut Message) -> Option<&mut u32> {
+/// The serial field of messages whose serial lives in a broker-chosen space (0 = calls, 1 =
+/// introspection queries; the two are numbered independently), for messages travelling
+/// broker -> client.
+pub fn broker_serial_out(m: &mut Message) -> Option<(u8, &mut u32)> {
     match m {
-        Message::CallFunction(x) => Some(&mut x.serial),
-        Message::CallFunction2(x) => Some(&mut x.serial),
-        Message::AbortFunctionCall(x) => Some(&mut x.serial),
-        Message::QueryIntrospection(x) => Some(&mut x.serial),
+        Message::CallFunction(x) => Some((0, &mut x.serial)),
+        Message::CallFunction2(x) => Some((0, &mut x.serial)),
+        Message::AbortFunctionCall(x) => Some((0, &mut x.serial)),
+        Message::QueryIntrospection(x) => Some((1, &mut x.serial)),
         _ => None,
     }
 }
 
 /// Same for messages travelling client -> broker.
-pub fn broker_serial_in(m: &mut Message) -> Option<&mut u32> {
+pub fn broker_serial_in(m: &mut Message) -> Option<(u8, &mut u32)> {
     match m {
-        Message::CallFunctionReply(x) => Some(&mut x.serial),
-        Message::QueryIntrospectionReply(x) => Some(&mut x.serial),
+        Message::CallFunctionReply(x) => Some((0, &mut x.serial)),
+        Message::QueryIntrospectionReply(x) => Some((1, &mut x.serial)),
         _ => None,
     }
 }
